@@ -1871,3 +1871,375 @@ def check_c18(rep, tier, seed, wd, replay):
                     "generated ROS 1 bags (1-5 connections incl. ids 0 and 65535, repeated connection records, shared and distinct types/md5, empty and 300-byte messages, times up to 2^32-1 s, chunks none/lz4/bz2 or unchunked records) converted under random MCAP writer options; corruptions of valid bags (bad/short magic, truncation, hostile header and field lengths, byte noise) and hand-made hostile records, each conversion in an isolated child; output bytes compared with the bag+writer model; oracle: the converted file decodes (independent decoder) to one message per bag message in order with the right times/bytes/channel/schema; invalid input gives an error, never a crash/exit",
                     [[c["bag"][:200].hex()] for c in cases[:2]], dict(st, disagreements=nd, corrupted=ncor))
     return cov, ["lz4/bz2 bag chunk decoders are oracles", "db3: SQLite engine and file system are inputs of the model (partial)"]
+
+
+# ------------------------------------------------------------------ C17: conformance matrix
+import conformance as cf  # noqa: E402
+
+
+def records_from_events(events):
+    """lexer events -> conformance record list (type, fields) in the expectation's vocabulary"""
+    S = lambda b: b.decode("utf-8", "replace")
+    L = lambda b: tuple(str(x) for x in b)
+    D = lambda kv: tuple(sorted((S(k), S(v)) for k, v in kv))
+    out = []
+    for ev in events:
+        op, p = tok_parsed(ev)
+        if op == "att":
+            out.append(("Attachment", {"create_time": str(p["create_time"]), "data": L(p["data"]), "log_time": str(p["log_time"]),
+                                       "media_type": S(p["media_type"]), "name": S(p["name"])}))
+        elif not isinstance(p, dict):
+            out.append(("?", {}))
+        elif op == 1:
+            out.append(("Header", {"library": S(p["library"]), "profile": S(p["profile"])}))
+        elif op == 2:
+            out.append(("Footer", {"summary_crc": str(p["crc"]), "summary_offset_start": str(p["summary_offset_start"]), "summary_start": str(p["summary_start"])}))
+        elif op == 3:
+            out.append(("Schema", {"data": L(p["data"]), "encoding": S(p["encoding"]), "id": str(p["id"]), "name": S(p["name"])}))
+        elif op == 4:
+            out.append(("Channel", {"id": str(p["id"]), "message_encoding": S(p["message_encoding"]), "metadata": D(p["metadata"]), "schema_id": str(p["schema_id"]), "topic": S(p["topic"])}))
+        elif op == 5:
+            out.append(("Message", {"channel_id": str(p["channel_id"]), "data": L(p["data"]), "log_time": str(p["log_time"]), "publish_time": str(p["publish_time"]), "sequence": str(p["sequence"])}))
+        elif op == 8:
+            out.append(("ChunkIndex", {"chunk_length": str(p["length"]), "chunk_start_offset": str(p["offset"]), "compressed_size": str(p["csize"]), "compression": S(p["compression"]),
+                                       "message_end_time": str(p["end"]), "message_index_length": str(p["mi_length"]),
+                                       "message_index_offsets": tuple(sorted((str(k), str(v)) for k, v in p["mi_offsets"])), "message_start_time": str(p["start"]), "uncompressed_size": str(p["usize"])}))
+        elif op == 10:
+            out.append(("AttachmentIndex", {"create_time": str(p["create_time"]), "data_size": str(p["data_size"]), "length": str(p["length"]), "log_time": str(p["log_time"]),
+                                            "media_type": S(p["media_type"]), "name": S(p["name"]), "offset": str(p["offset"])}))
+        elif op == 11:
+            out.append(("Statistics", {"attachment_count": str(p["attachments"]), "channel_count": str(p["channels"]),
+                                       "channel_message_counts": tuple(sorted((str(k), str(v)) for k, v in p["counts"])), "chunk_count": str(p["chunks"]),
+                                       "message_count": str(p["messages"]), "message_end_time": str(p["end"]), "message_start_time": str(p["start"]),
+                                       "metadata_count": str(p["metadata"]), "schema_count": str(p["schemas"])}))
+        elif op == 12:
+            out.append(("Metadata", {"metadata": D(p["metadata"]), "name": S(p["name"])}))
+        elif op == 13:
+            out.append(("MetadataIndex", {"length": str(p["length"]), "name": S(p["name"]), "offset": str(p["offset"])}))
+        elif op == 14:
+            out.append(("SummaryOffset", {"group_length": str(p["length"]), "group_opcode": str(p["op"]), "group_start": str(p["start"])}))
+        elif op == 15:
+            out.append(("DataEnd", {"data_section_crc": str(p["crc"])}))
+        elif op == 7:
+            pass          # message indexes are not part of the streamed expectation
+    return [(t, tuple(sorted(f.items()))) for t, f in out]
+
+
+@prop("C17")
+def check_c17(rep, tier, seed, wd, replay):
+    import hashlib
+    import json as js
+    import subprocess
+    vs = cf.vectors(cm.REPO)
+    # build the two tools from the working tree (go.work workspace; no -mod flag inside the workspace)
+    env = dict(os.environ, GOPROXY="off", GOSUMDB="off", GOTOOLCHAIN="local")
+    env.pop("GOFLAGS", None)
+    tools = {}
+    for t in ("test-write-conformance", "test-read-conformance"):
+        outp = os.path.join(wd, t)
+        p = cm.run(["go", "build", "-o", outp, "."], cwd=os.path.join(cm.REPO, "go/conformance", t), env=env, check=False)
+        if p.returncode != 0:
+            rep.add_violation("harness-build", "%s does not build: %s" % (t, p.stdout.decode()[-500:]), [], failing_input=False)
+            return summarize(rep, 1, 2, "tool build failed", [t]), []
+        tools[t] = outp
+    st = {"vectors": len(vs), "padded": 0, "reference_pinned": 0, "writer_pinned": 0, "streamed_ok": 0, "indexed_ok": 0, "model_writer_ok": 0, "model_lexer_ok": 0}
+    bins = {}
+    for v in vs:
+        data = cf.reference_bytes(v)
+        bins[v["name"]] = data
+        if "pad" in v["features"]:
+            st["padded"] += 1
+        if cf.pinned(v, data):
+            st["reference_pinned"] += 1
+        else:
+            rep.add_violation("oracle", "vector %s: the reference encoding no longer matches the pinned sha256/size of the expectation's binary" % v["name"], [v["json"]], failing_input=False)
+
+    def run_tool(args):
+        try:
+            p = subprocess.run(args, stdout=subprocess.PIPE, stderr=subprocess.PIPE, timeout=60)
+            return p.returncode, p.stdout, p.stderr.decode(errors="replace")[-300:]
+        except subprocess.TimeoutExpired:
+            return -1, b"", "timeout"
+    from concurrent.futures import ThreadPoolExecutor
+    # ---- write tool on the unpadded vectors
+    unp = [v for v in vs if "pad" not in v["features"]]
+    with ThreadPoolExecutor(max_workers=cm.NPROC) as ex:
+        wres = list(ex.map(lambda v: run_tool([tools["test-write-conformance"], v["json"]]), unp))
+    for v, (rc, outb, err) in zip(unp, wres):
+        if rc == 0 and cf.pinned(v, outb):
+            st["writer_pinned"] += 1
+        else:
+            ref = bins[v["name"]]
+            n = next((i for i in range(min(len(ref), len(outb))) if ref[i] != outb[i]), min(len(ref), len(outb)))
+            rep.add_violation("oracle", "vector %s: test-write-conformance output (rc=%s, %d bytes) differs from the expected binary at offset %d %s" % (v["name"], rc, len(outb), n, err),
+                              ["# go run ./go/conformance/test-write-conformance %s" % v["json"]])
+    # ---- read tool, streamed (all) and indexed (supported)
+    paths = {}
+    for v in vs:
+        pth = os.path.join(wd, v["name"] + ".mcap")
+        open(pth, "wb").write(bins[v["name"]])
+        paths[v["name"]] = pth
+    with ThreadPoolExecutor(max_workers=cm.NPROC) as ex:
+        sres = list(ex.map(lambda v: run_tool([tools["test-read-conformance"], paths[v["name"]], "streamed"]), vs))
+        ivs = [v for v in vs if cf.indexed_supported(v)]
+        ires = list(ex.map(lambda v: run_tool([tools["test-read-conformance"], paths[v["name"]], "indexed"]), ivs))
+    for v, (rc, outb, err) in zip(vs, sres):
+        ok = False
+        if rc == 0:
+            try:
+                got = cf.norm_records(js.loads(outb)["records"])
+                ok = got == cf.norm_records(v["records"])
+            except (ValueError, KeyError):
+                ok = False
+        if ok:
+            st["streamed_ok"] += 1
+        else:
+            rep.add_violation("oracle", "vector %s: test-read-conformance streamed output differs from the expectation (rc=%s %s)" % (v["name"], rc, err),
+                              ["# test-read-conformance <%s.mcap regenerated by tools/conformance.py> streamed" % v["name"]])
+    for v, (rc, outb, err) in zip(ivs, ires):
+        ok = False
+        if rc == 0:
+            try:
+                d = js.loads(outb)
+                got = {k: cf.norm_records(d.get(k) or []) for k in ("schemas", "channels", "messages", "statistics")}
+                ok = got == cf.indexed_expectation(v)
+            except (ValueError, KeyError):
+                ok = False
+        if ok:
+            st["indexed_ok"] += 1
+        else:
+            rep.add_violation("oracle", "vector %s: test-read-conformance indexed output differs from the derived expectation (rc=%s %s)" % (v["name"], rc, err),
+                              ["# test-read-conformance <%s.mcap> indexed" % v["name"]])
+    # ---- model ties: writer model reproduces the pinned bytes; lexer model reproduces the expected record stream
+    wcases = []
+    for v in unp:
+        o, calls = cf.writer_script(v)
+        wcases.append({"id": "c17w_" + v["name"], "o": o, "calls": calls, "v": v})
+    go_w, model_w, crashed = cw.run_go_and_model(wcases, wd, "c17w")
+    for c in wcases:
+        m = model_w.get(c["id"])
+        g = go_w.get(c["id"])
+        if m and cf.pinned(c["v"], b"".join(m["writes"])):
+            st["model_writer_ok"] += 1
+        else:
+            rep.add_violation("correspondence", "vector %s: the writer model does not reproduce the pinned bytes" % c["v"]["name"], cw.case_replay(c), failing_input=False)
+        if g and m and cw.diff_obs(g, m, ["new", "calls", "writes"]):
+            rep.add_violation("correspondence", "vector %s: library and writer model disagree: %s" % (c["v"]["name"], cw.diff_obs(g, m, ["new", "calls", "writes"])), cw.case_replay(c), failing_input=False)
+    lcases = [{"id": "c17l_" + v["name"], "file": bins[v["name"]], "lopts": {"cb": "full", "acrc": 1}, "v": v} for v in vs]
+    go_l, model_l, crashed2 = cl.run_lex(lcases, wd, "c17l")
+    for c in lcases:
+        g, m = go_l.get(c["id"]), model_l.get(c["id"])
+        d = cl.diff_lex(g, m)
+        if d:
+            rep.add_violation("correspondence", "vector %s: lexer and model disagree: %s" % (c["v"]["name"], d), cl.lex_replay(c), failing_input=False)
+        if m and records_from_events(m["events"]) == cf.norm_records(c["v"]["records"]):
+            st["model_lexer_ok"] += 1
+        else:
+            rep.add_violation("correspondence", "vector %s: the lexer model's record stream differs from the expectation" % c["v"]["name"], cl.lex_replay(c), failing_input=False)
+    cov = summarize(rep, len(vs) * 2 + len(unp) + len(ivs), len(vs),
+                    "all 416 conformance vectors (6 inputs x admissible feature combinations, 208 padded): the reference encoder (port of generate-inputs.ts) regenerates every binary and each must match the sha256+size pinned in the repository's LFS pointer; test-write-conformance built from the tree must emit exactly those bytes for the 208 unpadded vectors; test-read-conformance streamed must print exactly the expected record stream for all 416 and the derived expectation in indexed mode for the supported ones; the writer model must reproduce the pinned bytes and the lexer model the expected record stream",
+                    [v["name"] for v in vs[:3]], dict(st, exhaustive=True, indexed_vectors=len(ivs)))
+    return cov, ["sha256/size pins come from the Git-LFS pointers stored in place of the .mcap binaries"]
+
+
+# ------------------------------------------------------------------ C16: Go <-> Python
+def py_run(mode, d):
+    import subprocess
+    import json as js
+    env = dict(os.environ, VERIF_REPO=cm.REPO)
+    p = subprocess.run([sys.executable, os.path.join(cm.VERIF, "tools", "py_interop.py"), mode, d], cwd=d, stdout=subprocess.PIPE, stderr=subprocess.PIPE, env=env, timeout=900)
+    out = []
+    for line in p.stdout.decode().splitlines():
+        try:
+            out.append(js.loads(line))
+        except ValueError:
+            pass
+    return out, p.returncode, p.stderr.decode(errors="replace")[-500:]
+
+
+@prop("C16")
+def check_c16(rep, tier, seed, wd, replay):
+    import json as js
+    import random
+    r = random.Random(seed * 1000 + 16)
+    n = 120 if tier == "quick" else 3000
+    # ---------------- Go -> Python
+    files, crashed = cl.written_files(seed * 1000 + 16, n, "c16g", wd, nmax=20, small=True, utf8_only=True,
+                                      force={"comp": "", "custom": False, "skipmagic": False})
+    gdir = os.path.join(wd, "go2py")
+    os.makedirs(gdir)
+    for f in files:
+        open(os.path.join(gdir, f["id"] + ".mcap"), "wb").write(f["file"])
+    pyres, rc, err = py_run("read", gdir)
+    if rc != 0:
+        rep.add_violation("executor-crash", "python reader script failed: %s" % err, [], failing_input=False)
+    byname = {x["file"][:-5]: x for x in pyres}
+    lib = cm.lib_id()
+    st = {"go_files": len(files), "py_stream_ok": 0, "py_seek_compared": 0, "py_files": 0, "go_reads_of_py_files": 0}
+    for f in files:
+        rp = cw.case_replay({"id": f["id"], "o": f["o"], "calls": f["calls"]})
+        x = byname.get(f["id"])
+        if x is None:
+            rep.add_violation("oracle", "case %s: no result from the Python readers" % f["id"], rp)
+            continue
+        want = expected_lex_content(f, lib)
+        U = lambda b: b.decode("utf-8")
+        schemas = {c[1]: c for c in f["calls"] if c[0] == "S"}
+        channels = {}
+        wmsgs = []
+        for c in f["calls"]:
+            if c[0] == "C":
+                channels.setdefault(c[1], c)
+            if c[0] == "M":
+                ch = channels[c[1]]
+                sc = schemas.get(ch[2])
+                wmsgs.append({"schema": None if ch[2] == 0 else [sc[1], U(sc[2]), U(sc[3]), sc[4].hex()],
+                              "channel": [ch[1], ch[2], U(ch[3]), U(ch[4]), sorted([U(k), U(v)] for k, v in ch[5])],
+                              "message": [c[1], c[2], c[3], c[4], c[5].hex()]})
+        watt = [[a[0], a[1], U(a[2]), U(a[3]), a[4].hex()] for a in want["attachments"]]
+        wmd = [[U(m[0]), sorted([U(k), U(v)] for k, v in m[1])] for m in want["metadata"]]
+        o = f["o"]
+        seek_ok = (not o["skipci"] and not o["skiprch"] and not o["skiprsh"] and o["chunked"] and not o["skipai"] and not o["skipmdi"]
+                   and not o["skipso"] and not o["skipmi"] and not o["skipstats"])
+        for rname in ("stream", "seek"):
+            y = x.get(rname, {})
+            if rname == "seek" and not seek_ok:
+                continue
+            probs = []
+            if "error" in y:
+                probs.append("Python %s reader failed on a Go-written file: %s" % (rname, y["error"]))
+            else:
+                if y.get("header") != [U(want["header"][0]), U(want["header"][1])]:
+                    probs.append("Python %s reader: header differs" % rname)
+                if y.get("messages") != wmsgs:
+                    probs.append("Python %s reader: messages differ from what Go wrote (%d vs %d)" % (rname, len(y.get("messages", [])), len(wmsgs)))
+                if y.get("attachments") != watt:
+                    probs.append("Python %s reader: attachments differ" % rname)
+                if y.get("metadata") != wmd:
+                    probs.append("Python %s reader: metadata differ" % rname)
+                if rname == "seek":
+                    st["py_seek_compared"] += 1
+                    ts = [m["message"][2] for m in y.get("log_order", [])]
+                    if sorted(ts) != ts or sorted(js.dumps(m) for m in y.get("log_order", [])) != sorted(js.dumps(m) for m in wmsgs):
+                        probs.append("Python seeking reader: log-time-ordered read is not a sorted permutation of the written messages")
+                    if not o["skipstats"] and "statistics" in y:
+                        d = decode_written(f)
+                        if d:
+                            t = mcapspec.true_statistics(d)
+                            if y["statistics"] != [t["messages"], t["schemas"], t["channels"], t["attachments"], t["metadata"], t["chunks"], t["start"], t["end"], [list(x2) for x2 in t["counts"]]]:
+                                probs.append("Python seeking reader: statistics differ from the true aggregates")
+                else:
+                    if not probs:
+                        st["py_stream_ok"] += 1
+            for p in probs[:2]:
+                rep.add_violation("oracle", "case %s: %s" % (f["id"], p), rp)
+    # ---------------- Python -> Go
+    pdir = os.path.join(wd, "py2go")
+    os.makedirs(pdir)
+    g0 = gw.Gen(seed * 1000 + 16 + 1, utf8_only=True)
+    works = []
+    for i in range(n):
+        nsch = r.randint(0, 3)
+        nch = r.randint(1, 4)
+        calls = []
+        for s in range(1, nsch + 1):
+            calls.append(["S", s, g0.s().decode(), g0.s().decode(), g0.data(big_ok=False).hex()])
+        for c in range(1, nch + 1):
+            calls.append(["C", c, r.randint(0, nsch), g0.s().decode(), g0.s().decode(), [[k.decode(), v.decode()] for k, v in g0.kv(4)]])
+        state = {}
+        for _ in range(r.randint(0, 20)):
+            x = r.random()
+            if x < 0.75:
+                t = g0.ts(state); state["last_ts"] = t
+                calls.append(["M", r.randint(1, nch), r.choice([0, 1, 2**32 - 1, r.randrange(2**32)]), t, g0.ts({}), g0.data().hex()])
+            elif x < 0.88:
+                calls.append(["A", g0.ts({}), g0.ts({}), g0.s().decode(), g0.s().decode(), g0.data().hex()])
+            else:
+                calls.append(["D", g0.s().decode(), [[k.decode(), v.decode()] for k, v in g0.kv(4)]])
+        opts = {"chunk_size": r.choice([1, 64, 300, 1048576]), "index": {k: r.random() < 0.8 for k in ("attachment", "chunk", "message", "metadata")},
+                "repeat_channels": r.random() < 0.8, "repeat_schemas": r.random() < 0.8, "use_chunking": r.random() < 0.8,
+                "use_statistics": r.random() < 0.8, "use_summary_offsets": r.random() < 0.8, "enable_crcs": r.random() < 0.8, "enable_data_crcs": r.random() < 0.5}
+        w = {"profile": g0.s().decode(), "library": g0.s().decode(), "opts": opts, "calls": calls}
+        js.dump(w, open(os.path.join(pdir, "c16p%d.json" % i), "w"))
+        works.append(("c16p%d" % i, w))
+    wres, rc, err = py_run("write", pdir)
+    pfiles = []
+    for name, w in works:
+        pth = os.path.join(pdir, name + ".mcap")
+        if os.path.exists(pth):
+            pfiles.append({"id": name, "file": open(pth, "rb").read(), "w": w})
+    st["py_files"] = len(pfiles)
+    lcases = [{"id": f["id"] + "_lex", "file": f["file"], "lopts": {"cb": "full", "validate": 1, "acrc": 1}, "base": f} for f in pfiles]
+    rcases = []
+    for f in pfiles:
+        rcases.append({"id": f["id"] + "_scan", "file": f["file"], "ropts": ["index:0"], "ops": [["messages"]], "base": f})
+        rcases.append({"id": f["id"] + "_idx", "file": f["file"], "ropts": [], "ops": [["info"], ["messages"]], "base": f})
+        rcases.append({"id": f["id"] + "_log", "file": f["file"], "ropts": ["order:log"], "ops": [["messages"]], "base": f})
+    go_l, model_l, nd1 = lex_corr(rep, lcases, wd, "c16l")
+    go_r, model_r, nd2 = read_corr(rep, rcases, wd, "c16r")
+
+    def py_expected(w):
+        E = lambda s: s.encode()
+        return {"header": (E(w["profile"]), E(w["library"])),
+                "schemas": [(c[1], E(c[2]), E(c[3]), bytes.fromhex(c[4])) for c in w["calls"] if c[0] == "S"],
+                "channels": [(c[1], c[2], E(c[3]), E(c[4]), tuple(sorted((E(k), E(v)) for k, v in c[5]))) for c in w["calls"] if c[0] == "C"],
+                "messages": [(c[1], c[2], c[3], c[4], bytes.fromhex(c[5])) for c in w["calls"] if c[0] == "M"],
+                "attachments": [(c[1], c[2], E(c[3]), E(c[4]), bytes.fromhex(c[5]), True) for c in w["calls"] if c[0] == "A"],
+                "metadata": [(E(c[1]), tuple(sorted((E(k), E(v)) for k, v in c[2]))) for c in w["calls"] if c[0] == "D"]}
+    for c in lcases:
+        g = go_l.get(c["id"])
+        probs = []
+        w = c["base"]["w"]
+        if g:
+            if g["panic"]:
+                probs.append("Go lexer crashed on a Python-written file: %s" % g["panic"])
+            elif g["new"] != "ok" or g["end"] != "err:eof":
+                probs.append("Go lexer rejects a Python-written file: new=%s end=%s" % (g["new"], g["end"]))
+            else:
+                st["go_reads_of_py_files"] += 1
+                got = lex_content(g["events"])
+                want = py_expected(w)
+                for k in ("header", "messages", "attachments", "metadata"):
+                    if got[k] != want[k]:
+                        probs.append("Go lexer: %s differ from what Python wrote" % k)
+                # the Python writer may leave out records of channels/schemas that no message uses:
+                # everything read must have been written, and everything a message needs must be read
+                allrec = [tok_parsed(ev) for ev in g["events"]]
+                gs = set((p["id"], p["name"], p["encoding"], p["data"]) for op, p in allrec if op == 3)
+                gc = set((p["id"], p["schema_id"], p["topic"], p["message_encoding"], tuple(sorted(p["metadata"]))) for op, p in allrec if op == 4)
+                used_c = set(m[0] for m in want["messages"])
+                used_s = set(c2[1] for c2 in want["channels"] if c2[0] in used_c and c2[1] != 0)
+                if not gs <= set(want["schemas"]) or not gc <= set(want["channels"]):
+                    probs.append("Go lexer returned a schema/channel that Python did not write")
+                if not set(c2 for c2 in want["channels"] if c2[0] in used_c) <= gc or not set(s2 for s2 in want["schemas"] if s2[0] in used_s) <= gs:
+                    probs.append("Go lexer did not return a schema/channel that the written messages use")
+        rpl = ["# python workload: " + js.dumps(w)[:2000]] + cl.lex_replay(c)
+        for p in probs[:2]:
+            rep.add_violation("oracle", "case %s: %s" % (c["id"], p), rpl)
+        if c.get("_disagree"):
+            rep.add_violation("correspondence", "case %s: %s" % (c["id"], c["_disagree"]), rpl, failing_input=bool(probs))
+    for c in rcases:
+        g = go_r.get(c["id"])
+        probs = []
+        w = c["base"]["w"]
+        if g and g["ops"]:
+            o = g["ops"][-1]
+            if o["panic"]:
+                probs.append("Go reader crashed on a Python-written file: %s" % o["panic"])
+            elif (o["head"] or "").startswith("messages ok") and o["end"] == "err:eof":
+                want = py_expected(w)["messages"]
+                got = [parse_msg_line(l) for l in o["msgs"]]
+                gk = [(m["chan"], m["seq"], m["log"]) for m in got]
+                wk = [(m[0], m[1], m[2]) for m in want]
+                if c["id"].endswith("_log"):
+                    if sorted(gk) != sorted(wk) or [m["log"] for m in got] != sorted(m["log"] for m in got):
+                        probs.append("Go time-ordered read of a Python-written file is not a sorted permutation of the messages")
+                elif gk != wk:
+                    probs.append("Go %s read of a Python-written file returns %d messages, Python wrote %d (sequence differs)" % (c["id"].split("_")[-1], len(gk), len(wk)))
+            elif (o["head"] or "").startswith("messages ok"):
+                probs.append("Go read of a Python-written file ended with %s" % o["end"])
+        report_case(rep, c, probs[:2], cr.read_replay)
+    cov = summarize(rep, len(files) + len(pfiles) * 4, len(files) + len(pfiles),
+                    "Go->Python: workloads (valid UTF-8) written by the Go writer in random uncompressed configurations, read by python/mcap NonSeekingReader (always) and SeekingReader (when the summary carries all indexes), CRC validation on: header, messages with channel/schema, attachments, metadata, statistics, log-time order and reverse; Python->Go: workloads written by python/mcap Writer across its options (chunk size, index types, repeated channels/schemas, chunking, statistics, summary offsets, CRCs), decoded by the independent spec decoder and read by the Go lexer, scan, indexed and log-time readers (also compared with the Coq models)",
+                    [cw.case_replay({"id": f["id"], "o": f["o"], "calls": f["calls"]})[:6] for f in files[:1]], dict(st, disagreements=nd1 + nd2))
+    return cov, ["the Python implementation is not modelled: it is tied instance-wise through the verified pivot (Go writer/reader models)"]
